@@ -27,18 +27,18 @@ for _mod, _K, _vp, _vk, _ts, _kws, _cond, _extra in _VT:
     names = list(_kws)
     if _K == "Required":
         present = "len(eff_required(element)) != 0"
-        params = "m.params['required'] is eff_required(element)"
+        params = "has(m.params,'required') and m.params['required'] is eff_required(element)"
     elif _K == "AdditionalProperties":
         present = "not (" + _missing(names) + ")"
-        params = "isinstance(m.params['__properties__'], Properties)"
+        params = "has(m.params,'__properties__') and isinstance(m.params['__properties__'], Properties)"
     else:
         present = "not (" + _missing(names) + ")"
-        params = " and ".join(f"m.params['{k}'] is element.{k}" for k in names)
+        params = " and ".join(f"has(m.params,'{k}') and m.params['{k}'] is element.{k}" for k in names)
     _GV.append((_K, present, params))
 for _K, names in (("Const", ["const"]), ("Enum", ["enum"])):
-    _GV.append((_K, "not (" + _missing(names) + ")", " and ".join(f"m.params['{k}'] is element.{k}" for k in names)))
+    _GV.append((_K, "not (" + _missing(names) + ")", " and ".join(f"has(m.params,'{k}') and m.params['{k}'] is element.{k}" for k in names)))
 _GV.append(("UniqueItems", "not (attr_absent(element,'uniqueItems') or is_np(element.uniqueItems) or element.uniqueItems is False)",
-            "m.params['uniqueItems'] is element.uniqueItems"))
+            "has(m.params,'uniqueItems') and m.params['uniqueItems'] is element.uniqueItems"))
 GV_POST = " and ".join(
     [f"implies({present}, some_member(result, lambda m: type_is(m, {K}) and dict_wf(m.params) and {params}))" for K, present, params in _GV] +
     [f"all_members(result, lambda m: implies(type_is(m, {K}), ({present}) and dict_wf(m.params) and {params}))" for K, present, params in _GV] +
@@ -78,9 +78,42 @@ def _val_post(K):
     cl += [f"some_member(result, lambda m: type_is(m, InstanceOf) and dict_wf(m.params) and has(m.params,'types') and m.params['types'] is {TYPES[K]})",
            f"all_members(result, lambda m: implies(type_is(m, InstanceOf), dict_wf(m.params) and has(m.params,'types') and m.params['types'] is {TYPES[K]}))"]
     return " and ".join(cl)
+# The validators of an element accept a value exactly when every keyword clause holds: for each validator class C, if C's
+# keywords are set on the element then the raise condition of the verified contract Validator.__call__[C] -- with the element's
+# keyword values for the validator's params -- is false, and the class's type clause holds.  (Composition of: membership
+# characterisation above, VREJ[C].)  AdditionalProperties keeps its validator abstract (its Properties object is built per access).
+import re as _re
+import contracts.validation_base  # noqa: registers Const/Enum/UniqueItems/InstanceOf call contracts
+from pyvc.contracts import REG as _REG
+_VCALL = "statham.schema.validation.base:Validator.__call__"
+def _clause_for(C, present, K):
+    c = _REG[(_VCALL, C)]
+    cond = " or ".join(f"({x})" for _, x in c.raises)
+    cond = _re.sub(r"\bvalue\b", "x", cond)
+    if C == "Required":
+        cond = cond.replace("self.params['required']", "eff_required(self)")
+    else:
+        cond = _re.sub(r"self\.params\['(\w+)'\]", r"self.\1", cond)
+    return f"implies({present.replace('element', 'self')}, not ({cond}))"
+def _d6v_clauses(K):
+    cl = []
+    for C, present, params in _GV:
+        if C == "AdditionalProperties":
+            cl.append("all_members(result, lambda m: implies(type_is(m, AdditionalProperties), not vrejects(m, x)))")
+        else:
+            cl.append(_clause_for(C, present, K))
+    tcond = _re.sub(r"\bvalue\b", "x", _REG[(_VCALL, "InstanceOf")].raises[0][1]).replace("self.params['types']", TYPES[K])
+    cl.append(f"not ({tcond})")
+    return cl
+def _d6v_post(K):
+    cl = _d6v_clauses(K)
+    fwd = [f"forall_v(lambda x: implies(is_json(x) and accepts_all(result, x), {c}))" for c in cl]
+    bwd = "forall_v(lambda x: implies(is_json(x) and " + " and ".join(f"({c})" for c in cl) + ", accepts_all(result, x)))"
+    return " and ".join(fwd + [bwd])
 for K in INST_CLASSES:
     contract(E + "Element.validators", inst=K, requires="elem_wf(self) and " + GV_REQ.replace("element", "self"),
-             returns="is_list(result) and all_members(result, lambda m: isinstance(m, Validator)) and len(result) >= 1 and type_is(result[0], InstanceOf) and " + _val_post(K),
+             returns="is_list(result) and all_members(result, lambda m: isinstance(m, Validator)) and len(result) >= 1 and type_is(result[0], InstanceOf) and " + _val_post(K)
+                     ,
              result_kind="list", ghost={"result_fresh": True}, props=["C01", "C08", "C13", "C14", "C17", "C18"],
              assume=["result is validators_of(self)"])
 
